@@ -380,6 +380,15 @@ func serGen(g *G, tier string) []M {
 			}
 		}
 	}
+	// document types: every number the enum defines, the one CycloneDX has no phase for, and numbers
+	// no release defines, alone and next to a named entry, in every format
+	for _, v := range []float64{0, 1, 6, 8, 9, 42, 99, 2147483647} {
+		d := enumDoc(func(app, lib, edge M) {})
+		d["meta"].(M)["types"] = []any{M{"t": v, "n": "custom"}, M{"n": "named", "d": "text"}}
+		for _, f := range serFormats {
+			ops = append(ops, M{"op": "serSeq", "fmt": string(f), "docs": []any{M{"doc": d, "nils": []any{}, "indent": 2.0}, M{"doc": d, "nils": []any{}, "indent": 2.0}}})
+		}
+	}
 	for i := 0; i < n; i++ {
 		good := g.serDoc()
 		gd := DocOf(good)
